@@ -2210,6 +2210,10 @@ def make_builtins(interp):
             if d:
                 return d[0]
             raise
+        except PyRaise as pr:  # the object's own model says: no such attribute
+            if d and getattr(pr.exc, "cls", None) == "AttributeError":
+                return d[0]
+            raise
 
     @reg("any")
     def _any(cx, fr, it):
